@@ -228,7 +228,7 @@ class C02(Prop):
             v = res.violations[0]
             return violation(f'{what}: protocol violation {v}', 'protocol:' + v.kind, labels=labels)
 
-        r1 = kaisa.run_sim(cA, program, case['sched1'], False, observe=('assignment', 'factors'))
+        r1 = kaisa.run_sim(cA, program, case['sched1'], False, observe=('assignment', 'factors', 'grads_before'))
         if r1.timed_out:
             raise RuntimeError('simulation timed out (harness)')
         if not r1.ok:
@@ -260,7 +260,7 @@ class C02(Prop):
         if not r3.ok:
             return viol(r3, 'placement B')
         s3 = [rec for rec in r3.results[0] if rec['op'] == 'train']
-        single = [rec for rec in kaisa.run_single(cA, program, observe=('factors',)) if rec['op'] == 'train']
+        single = [rec for rec in kaisa.run_single(cA, program, observe=('factors', 'grads_before')) if rec['op'] == 'train']
         model = kmodel.build_model(case['spec'])
         mods = dict(model.named_modules())
         eps = refkfac.EPS[torch.float32]
@@ -284,7 +284,18 @@ class C02(Prop):
                 tols[n] = refkfac.tolerance(kmax[n], A.shape[0] * G.shape[0], eps)
             tmax = max(tols.values())
             for n in names:
-                tol = tols[n] + tmax + 2 * cum
+                # the distributed and the single-process run compute the raw gradient and the factors along different float32
+                # summation orders (per-rank batches + all-reduce vs one concatenated batch); that measured input difference is
+                # amplified by the conditioning and is not the subject of the comparison
+                d_ref = kmodel.combined_grad(mods[n], single[t]['before'], n)
+                d_sim = kmodel.combined_grad(mods[n], steps[0][t]['before'], n)
+                dD = (d_ref - d_sim).norm().item() / max(d_ref.norm().item(), 1e-300)
+                dF = 0.0
+                for f in ('A', 'G'):
+                    fr = single[t]['factors'][n][f].to(torch.float64)
+                    fs = steps[0][t]['factors'][n][f].to(torch.float64)
+                    dF = max(dF, (fr - fs).norm().item() / max(fr.norm().item(), 1e-300))
+                tol = tols[n] + tmax + 2 * cum + 4 * kmax[n] * (dD + dF)
                 if tol > 5e-2:
                     continue
                 informative = True
